@@ -1,5 +1,6 @@
 SPECIFICATION Spec
 CONSTANTS
   LawId = "asym"
+  LawTable <- EmptyTable
   FixedJunction = TRUE
 INVARIANT Report
